@@ -1118,10 +1118,12 @@ Proof.
       apply no_anxt_has. eapply Forall_impl; [|exact BC]. intros c Hc. apply Hc.
 Qed.
 
+Lemma concat_cut_data (l : list bytes) : concat (cut_data l) = concat l.
+Proof. apply PiecesFacts.cutN_concat, PiecesFacts.CMAX_pos. Qed.
 Lemma concat_filter_nonempty (l : list bytes) : concat (filter nonempty l) = concat l.
 Proof. induction l as [|d l IH]; [reflexivity|]. destruct d; cbn [filter nonempty concat app]; [exact IH|]. rewrite IH. reflexivity. Qed.
 
-(* re-serialising drops empty data chunks only: the entry decodes alike *)
+(* re-serialising drops empty data chunks and cuts payloads of 2^32 bytes or more: the entry decodes alike *)
 Lemma read_entry_x_normalize pw rb n : RecutFacts.drains (n_data n) (rb n) -> RecutFacts.drains (n_data n) (rb (normalize n)) ->
   read_entry_x pw rb (normalize n) = read_entry_x pw rb n.
 Proof.
@@ -1129,8 +1131,8 @@ Proof.
   rewrite (RecutFacts.normal_same_decode E D decompress verify (normalize n) n pw (rb (normalize n)) (rb n)).
   - reflexivity.
   - unfold RecutFacts.normal_same, normalize. cbn [n_hdr n_phsf n_extra n_data n_meta n_xattrs].
-    rewrite concat_filter_nonempty. repeat split.
-  - unfold normalize. cbn [n_data]. apply (RecutFacts.drains_concat (n_data n)); [symmetry; apply concat_filter_nonempty|exact D2].
+    rewrite concat_cut_data. repeat split.
+  - unfold normalize. cbn [n_data]. apply (RecutFacts.drains_concat (n_data n)); [symmetry; apply concat_cut_data|exact D2].
   - exact D1.
 Qed.
 
